@@ -2,8 +2,8 @@
    Only the property theorems; each is closed by [exact] of a lemma from Proofs/.
    The model (Model/Routing.v) mirrors the code AFTER the three fix: commits of this property
    (length-prefixed merged key in LocalCachedMap and LogProcessCounterSet; S_IFDIR test in ListBufferIDs). *)
-From SV Require Import Model.Common Model.Md5 Model.Routing Spec.RoutingSpec
-  Proofs.MergedKeyProofs Proofs.RoutingProofs Proofs.QueueProofs Proofs.TagTemplateProofs Proofs.RestartProofs.
+From SV Require Import Model.Common Model.Md5 Model.Routing Model.RoutingMem Spec.RoutingSpec
+  Proofs.MergedKeyProofs Proofs.RoutingProofs Proofs.QueueProofs Proofs.TagTemplateProofs Proofs.RestartProofs Proofs.RoutingMemProofs.
 
 (* ---------------------------------------------------------------------------------------------- *)
 (* 1. the lookup key of LocalCachedMap / LogProcessCounterSet                                      *)
@@ -105,6 +105,43 @@ Theorem C06_metric_own_keys :
         nth_error is j = Some i -> nth_error is k = Some i' -> (ks = ks' <-> i = i')).
 Proof. exact metric_own_keys_lemma. Qed.
 Print Assumptions C06_metric_own_keys.
+
+(* ---------------------------------------------------------------------------------------------- *)
+(* 2b. what a pipeline keeps outlives the record: key values are views into pooled input buffers     *)
+
+(* Memory-level model (Model/RoutingMem.v): strings are references - owned copies, views into the buffers of a
+   heap, Go substrings - read only when observed; EWrite overwrites a buffer (the pool hands it to a later
+   record), ERoute is a record accepted by the sink.  With util.DeepCopyStrings in GetOrCreate (deep = true):
+   for EVERY sequence of writes and routed records, what the pipelines show, looked at with ANY later content
+   of the buffers, is exactly the value-level run on the key values the records had when they were routed. *)
+Theorem C06_stored_values_are_copies :
+  forall parts evs st is vs,
+    m_run true parts rs_init evs = Ok (st, is, vs) ->
+    exists g lm, run_ops parts g_init [[]] (map (fun t => (O, t)) vs) = Ok (g, [lm], is) /\
+                 forall h, observe_with h st = g_pipes g.
+Proof. exact stored_values_are_copies_lemma. Qed.
+Print Assumptions C06_stored_values_are_copies.
+
+(* Hence every routed record's pipeline shows that record's own key values (metric labels), id and tag after
+   any number of later records have overwritten the buffers. *)
+Theorem C06_pooled_routing_own_keys :
+  forall parts evs st is vs,
+    m_run true parts rs_init evs = Ok (st, is, vs) ->
+    forall h, Forall2 (fun t i => exists p, nth_error (observe_with h st) i = Some p /\ p_keys p = t /\
+                                  p_id p = pipeline_id t /\ build_tag parts t = Ok (p_tag p)) vs is.
+Proof. exact pooled_routing_own_keys_lemma. Qed.
+Print Assumptions C06_pooled_routing_own_keys.
+
+(* With a copy of the slice only (deep = false; the seeded change C06/1) the model is refuted: template "$app",
+   the record "info sshd" creates the pipeline, its buffer is recycled for "warn cron": tag, id and labels of the
+   pipeline now read "cron" although the only routed record had app = "sshd". *)
+Theorem C06_shallow_key_copy_refuted :
+  exists st is vs,
+    m_run false alias_parts rs_init alias_events = Ok (st, is, vs) /\
+    vs = [[[115;115;104;100]]] /\
+    observe st = [{| p_keys := [[99;114;111;110]]; p_id := [99;114;111;110]; p_tag := [99;114;111;110] |}].
+Proof. exact shallow_copy_aliases. Qed.
+Print Assumptions C06_shallow_key_copy_refuted.
 
 (* ---------------------------------------------------------------------------------------------- *)
 (* 3. pipeline id, queue directory, .id round trip (on-disk format: NOT repaired, see findings)      *)
